@@ -28,7 +28,7 @@ evaluates the left operand with the `EvalX` of `lt` and the right one with that 
 they) short-circuit, the declared return type is the documented result type, and on EVERY pair of values of
 these types the entry computes exactly the reference operator `refBinop` — for any float arithmetic and any
 regex matcher. -/
-theorem table_sound {F : Type} (ops : FOps F) (reMatch : String → String → Option Bool) :
+theorem table_sound {F : Type} (ops : FOps F) (reMatch : Bytes → Bytes → Option Bool) :
     ∀ e ∈ Gen.table,
       e.lm = e.lt ∧ e.rm = e.rt ∧ binType e.op e.lt e.rt = some e.ret ∧
       (e.shape = .andSC ↔ e.op = .and) ∧ (e.shape = .orSC ↔ e.op = .or) ∧ e.shape ≠ .unknown ∧
@@ -59,7 +59,7 @@ theorem no_int_float_arithmetic :
       lookup Gen.table op .int .float = none ∧ lookup Gen.table op .float .int = none := by decide
 
 /-- No entry panics on operands of its key types (zero divisors of `/` and `%` are guarded). -/
-theorem table_no_trap {F : Type} (ops : FOps F) (reMatch : String → String → Option Bool) :
+theorem table_no_trap {F : Type} (ops : FOps F) (reMatch : Bytes → Bytes → Option Bool) :
     ∀ e ∈ Gen.table, ∀ vl vr : Value F, vl.ty = e.lt → vr.ty = e.rt → e.compute ops reMatch vl vr ≠ .trap := by
   intro e he vl vr hl hr
   exact (canon_sound ops reMatch e (List.all_eq_true.mp table_canonical e he) vl vr hl hr).2
@@ -288,7 +288,7 @@ open Kap.C04.Legacy in
 recurses: 40 nested calls later the node is in the state it started in (Go: fatal stack overflow; repaired
 by 325c5ee; corpus/C04/unary-minus-on-string-recursion.ops). -/
 theorem legacy_retry_never_terminates :
-    let l := Leaf.negLit (.str "a"); let r := Leaf.lit (.str "b")
+    let l := Leaf.negLit (.str [97]); let r := Leaf.lit (.str [98])
     out (direct Gen.table [] .eq l r (initCache Gen.table .eq l r) 0) = none := by decide
 
 /-! ### Recorded finding: the state of a nested lambda node is shared between groups -/
